@@ -270,7 +270,10 @@ func (f *LogFile) Measurement(name []byte) MeasurementElem {
 		return nil
 	}
 
-	return mm
+	// Return a copy: the caller reads the element (Deleted) after the lock is
+	// released, while writers update the measurement under the write lock.
+	cp := *mm
+	return &cp
 }
 
 func (f *LogFile) MeasurementHasSeries(ss *tsdb.SeriesIDSet, name []byte) bool {
